@@ -6,7 +6,7 @@ import vf, aoflib, fsrec
 
 def run(ck):
     b = ck.build("aof")
-    ck.tlc("AOF", aoflib.mc_cfg(aoflib.CODE_SKIP_CONFLICT, 4 if not ck.thorough else 5, invs="CleanRestart"))
+    ck.tlc("AOF", aoflib.mc_cfg(aoflib.CODE_SKIP_CONFLICT, 3 if not ck.thorough else 4, invs="CleanRestart", maxcrash=2, children='{"c"}'))
     hs = [ck.replay] if ck.replay is not None else aoflib.histories(ck, 120 if ck.thorough else 24)
     for hi, h in enumerate(hs):
         n = len(h["att"])
